@@ -151,7 +151,9 @@ impl SudokuSolver {
     /// Create a new Sudoku solver for the given puzzle.
     /// 
     /// # Arguments
-    /// * `puzzle` - A 9x9 grid where 0 represents empty cells and 1-9 are clues
+    /// * `puzzle` - A 9x9 grid where 0 represents empty cells and 1-9 are clues.
+    ///   A cell holding any other value cannot be completed: such a puzzle has no
+    ///   solution and `solve()` reports `solution: None`.
     /// 
     /// # Example
     /// ```
@@ -196,9 +198,12 @@ impl SudokuSolver {
                 let cell_candidates = if puzzle[row][col] == 0 {
                     // Empty cell: all digits 1-9 are initially possible
                     SudokuCandidateSet::full()
-                } else {
+                } else if Self::is_valid_clue(puzzle[row][col]) {
                     // Clue: only the given digit is possible
                     SudokuCandidateSet::single(puzzle[row][col])
+                } else {
+                    // Not a digit 1-9: nothing is possible here (see `has_invalid_clue`)
+                    SudokuCandidateSet::new()
                 };
                 candidate_row.push(cell_candidates);
             }
@@ -220,6 +225,20 @@ impl SudokuSolver {
         solver.update_candidates();
         
         solver
+    }
+    
+    /// A non-empty cell is a valid clue only if it holds a digit 1-9.
+    fn is_valid_clue(value: i32) -> bool {
+        (1..=9).contains(&value)
+    }
+    
+    /// True if some cell of the original puzzle is neither empty (0) nor a digit 1-9.
+    /// No completed grid can agree with such a cell, so the puzzle has no solution.
+    fn has_invalid_clue(&self) -> bool {
+        self.original_puzzle
+            .iter()
+            .flatten()
+            .any(|&cell| cell != 0 && !Self::is_valid_clue(cell))
     }
     
     /// Add the basic Sudoku constraints (rows, columns, boxes).
@@ -955,6 +974,18 @@ impl SudokuSolver {
     pub fn solve(mut self) -> SudokuResult {
         let start = Instant::now();
         
+        // A clue outside 1-9 admits no completion: report "no solution" instead of
+        // searching for a grid that contains it.
+        if self.has_invalid_clue() {
+            return SudokuResult {
+                solution: None,
+                propagations: 0,
+                nodes: 0,
+                duration_ms: start.elapsed().as_secs_f64() * 1000.0,
+                pure_propagation: false,
+            };
+        }
+        
         // Apply advanced techniques iteratively until no more progress
         let mut technique_iterations = 0;
         while self.apply_advanced_techniques() && technique_iterations < 10 {
@@ -1137,7 +1168,8 @@ impl SudokuSolver {
 /// * `puzzle` - A 9x9 grid where 0 represents empty cells and 1-9 are clues
 /// 
 /// # Returns
-/// The solution grid if found, None otherwise
+/// The solution grid if found, None otherwise (in particular when a cell holds a
+/// value outside 0-9)
 /// 
 /// # Example
 /// ```
